@@ -6,6 +6,7 @@ import (
 	"go.opentelemetry.io/collector/pdata/pmetric"
 	"go.opentelemetry.io/collector/pdata/ptrace"
 
+	cfg "github.com/open-telemetry/otel-arrow/pkg/config"
 	rt "github.com/open-telemetry/otel-arrow/zzverifrt"
 )
 
@@ -22,10 +23,43 @@ func verifOptAttr(m pcommon.Map, tag, key string) {
 	}
 }
 
+// verifProducerSym: a producer whose public options are symbolic: span order (all 7 values), dictionary mode
+// (default / disabled / 8-bit limit / 16-bit initial index), reset threshold (0 / default / 1).
+func verifProducerSym() *Producer {
+	ord := rt.Int("opt.orderSpanBy")
+	rt.Assume(ord >= 0)
+	rt.Assume(ord <= 6)
+	opts := []cfg.Option{cfg.WithNoZstd(), cfg.WithOrderSpanBy(cfg.OrderSpanBy(ord))}
+	dict := rt.Int("opt.dict")
+	rt.Assume(dict >= 0)
+	rt.Assume(dict <= 3)
+	switch dict {
+	case 1:
+		opts = append(opts, cfg.WithNoDictionary())
+	case 2:
+		opts = append(opts, cfg.WithUint8LimitDictIndex())
+	case 3:
+		opts = append(opts, cfg.WithUint16InitDictIndex())
+	}
+	thr := rt.Int("opt.resetThreshold")
+	rt.Assume(thr >= 0)
+	rt.Assume(thr <= 2)
+	switch thr {
+	case 1:
+		opts = append(opts, cfg.WithDictResetThreshold(0))
+	case 2:
+		opts = append(opts, cfg.WithDictResetThreshold(1))
+	}
+	return NewProducerWithOptions(opts...)
+}
+
 // VerifHarness_C01_rt_multi: BATCHES batches of SPANS spans (distinct concrete span ids); per span, as
 // enabled by ATTR / EV / LK: 0..1 span attribute, 0..1 event with 0..1 attribute, 0..1 link with 0..1 attribute.
 func VerifHarness_C01_rt_multi() {
 	p, c := verifProducer(), verifConsumer()
+	if rt.Param("OPT") == 1 {
+		p = verifProducerSym()
+	}
 	for b := 0; b < rt.Param("BATCHES"); b++ {
 		td := ptrace.NewTraces()
 		ss := td.ResourceSpans().AppendEmpty().ScopeSpans().AppendEmpty()
@@ -33,7 +67,11 @@ func VerifHarness_C01_rt_multi() {
 			sp := ss.Spans().AppendEmpty()
 			sp.SetSpanID(pcommon.SpanID{byte(b + 1), byte(s + 1)})
 			sp.SetTraceID(pcommon.TraceID{1})
-			sp.SetName("span")
+			if rt.Param("OPT") == 1 {
+				sp.SetName(verifOne("sp.name")) // the span order options compare names
+			} else {
+				sp.SetName("span")
+			}
 			sp.SetStartTimestamp(pcommon.Timestamp(100 + s))
 			sp.SetEndTimestamp(pcommon.Timestamp(200 + s))
 			if rt.Param("ATTR") == 1 {
